@@ -24,7 +24,10 @@ def pair_cases(draw, tier="quick"):
     kind = draw(st.sampled_from(["gaussian_cov", "gaussian_prec", "gmrf"]))
     c = {"kind": kind, "interface": draw(st.sampled_from(["experimental", "legacy"])), "route": draw(st.sampled_from(["joint", "joint", "direct"])),
          "shape": draw(gen.logpos(-1, 1)), "rate": draw(gen.logpos(-2, 1)), "seed": draw(st.integers(0, 10 ** 6)),
-         "retarget": draw(st.sampled_from([False, False, True]))}
+         "retarget": draw(st.sampled_from([False, False, True])),
+         # data and mean on a common large base line (2^20, 2^23; values rounded to multiples of 2^-20 so that the shift is exact in
+         # floating point): the residual, and so the conditional of the hyper-parameter, does not depend on the base line
+         "baseline_pow": draw(st.sampled_from([0, 0, 20, 23]))}
     if kind == "gmrf":
         pd = draw(st.sampled_from([1, 1, 2]))
         n = draw(st.integers(3, 12)) if pd == 1 else draw(st.integers(2, 4))
@@ -48,6 +51,12 @@ def pair_cases(draw, tier="quick"):
     return c
 
 
+def on_baseline(c, v):
+    if not c.get("baseline_pow"):
+        return v
+    return np.round(np.asarray(v, dtype=float) * 2.0 ** 20) / 2.0 ** 20 + 2.0 ** c["baseline_pow"]
+
+
 def build_pair(c):
     """returns (Posterior target over the hyper-parameter 's', description)"""
     import cuqi
@@ -56,9 +65,12 @@ def build_pair(c):
     if c["kind"] == "gmrf":
         n, pd = c["n"], c["pd"]
         mean = A(c["mean"]) if c["mean_kind"] == "vector" else (float(c["mean"][0]) if c["mean_kind"] == "scalar" else np.zeros(n if pd == 1 else n * n))
+        if c["mean_kind"] != "zero":
+            mean = on_baseline(c, mean)
+            mean = float(mean) if c["mean_kind"] == "scalar" else mean
         c20.decoy_other_layout(pd, n, c["bc"], c["order"])
         x = D.GMRF(mean, prec=lambda s: s, bc_type=c["bc"], order=c["order"], geometry=c20.make_geom(pd, n), name="x")
-        xv = A(c["x"])
+        xv = A(c["x"]) if c["mean_kind"] == "zero" else on_baseline(c, A(c["x"]))
         if c["route"] == "joint":
             return D.JointDistribution(x, s)(x=xv)
         return D.Posterior(x.to_likelihood(xv), s)
@@ -74,7 +86,8 @@ def build_pair(c):
         if c["route"] == "joint":
             return D.JointDistribution(y, xd, s)(y=b, x=A(c["x"]))
         return D.Posterior(y(x=A(c["x"])).to_likelihood(b), s)
-    y = D.Gaussian(A(c["mean"]) if c.get("mean_kind", "vector") == "vector" else float(c["mean"][0]), **{key: fn}, geometry=m, name="y")
+    b = on_baseline(c, b)
+    y = D.Gaussian(on_baseline(c, A(c["mean"])) if c.get("mean_kind", "vector") == "vector" else float(on_baseline(c, c["mean"][0])), **{key: fn}, geometry=m, name="y")
     if c["route"] == "joint":
         return D.JointDistribution(y, s)(y=b)
     return D.Posterior(y.to_likelihood(b), s)
